@@ -56,11 +56,26 @@ pub mod sync {
                     write!(f, "channel closed")
                 }
             }
+            #[derive(Debug)]
+            pub enum TrySendError<T> {
+                Full(T),
+                Closed(T),
+            }
+            impl<T> std::fmt::Display for TrySendError<T> {
+                fn fmt(&self, f: &mut std::fmt::Formatter) -> std::fmt::Result {
+                    write!(f, "no available capacity / channel closed")
+                }
+            }
+            impl<T: std::fmt::Debug> std::error::Error for TrySendError<T> {}
         }
         pub struct Inner<T> {
             pub q: VecDeque<T>,
             pub rx_alive: bool,
             pub senders: usize,
+            /// the capacity the channel was created with. `send().await` waits for room, so under it the channel behaves like an
+            /// unbounded FIFO (what this shim models: nothing is lost, order kept); `try_send` does NOT wait: it fails when the
+            /// consumer has not drained the channel below its capacity - a legal schedule (slow consumer) the model includes.
+            pub cap: usize,
         }
         pub struct Sender<T>(pub Arc<Mutex<Inner<T>>>);
         pub struct Receiver<T>(pub Arc<Mutex<Inner<T>>>);
@@ -75,7 +90,7 @@ pub mod sync {
             }
         }
         pub fn channel<T>(_cap: usize) -> (Sender<T>, Receiver<T>) {
-            let i = Arc::new(Mutex::new(Inner { q: VecDeque::new(), rx_alive: true, senders: 1 }));
+            let i = Arc::new(Mutex::new(Inner { q: VecDeque::new(), rx_alive: true, senders: 1, cap: _cap }));
             (Sender(i.clone()), Receiver(i))
         }
         impl<T> Clone for Sender<T> {
@@ -105,6 +120,17 @@ pub mod sync {
             }
             pub fn is_closed(&self) -> bool {
                 !self.0.lock().unwrap().rx_alive
+            }
+            pub fn try_send(&self, v: T) -> Result<(), error::TrySendError<T>> {
+                let g = self.0.lock().unwrap();
+                if !g.rx_alive {
+                    return Err(error::TrySendError::Closed(v));
+                }
+                if g.q.len() >= g.cap {
+                    return Err(error::TrySendError::Full(v));
+                }
+                g.q.push_back(v);
+                Ok(())
             }
         }
         impl<T> Receiver<T> {
